@@ -51,6 +51,8 @@ def compare(pid, case, mline, iline):
             diffs.append(("after", zero, i.get("after")))
         if m["regs"] != m["docregs"]:
             diffs.append(("model-visit-vs-refs", m["docregs"], m["regs"]))
+    elif pid == "C11" and gen_expr.has_leafv(case.term):
+        pass            # by-value leaves see copies by design: these directed cases are for C10 (values)
     else:
         c2 = gen_expr.has_compose2(case.term)
         norm = (lambda x: strip_idents(x)) if pid == "C10" else (lambda x: x)
@@ -263,6 +265,9 @@ def directed_cases(pid, start):
                    (("bind", -1, ("mem", 1, ["v", "v"], 0, 0), [("v", 31)]), ("mem", 3, ["c"], 0, 0))):
         out.append(C(0, ("c2", ("leaf", 5, 0), g1, g2), True, ["v"], [11]))
         out.append(C(0, ("hide", -1, ("c2", ("leaf", 5, 0), g1, g2)), True, ["v", "v"], [11, 22]))
+    for g1, g2 in ((("leafv", 7), ("leafv", 8)), (("leafv", 7), ("leaf", 8, 0)), (("hide", -1, ("leafv", 7)), ("bind", -1, ("leafv", 8), [("v", 31)]))):
+        out.append(C(0, ("c2", ("leaf", 5, 0), g1, g2), True, ["v", "v"], [11, 22]))
+        out.append(C(0, ("c1", ("leaf", 5, 0), g1), True, ["v", "v"], [11, 22]))
     # every adaptor under a deducing adaptor with a reference parameter (F2)
     inner = [("hr", leaf), ("retype", leaf, [("O", False)], True), ("br", leaf, 123), ("ec", leaf, 1500),
              ("c2", ("leaf", 2, 0), leaf, ("leaf", 3, 0)), ("c1", ("leaf", 2, 0), leaf), ("rr", leaf), ("to", leaf, [2]),
